@@ -429,6 +429,29 @@ pub extern "C" fn cs_fill8_wrap_t1() {
     set_generation(u64::MAX - 3);
 }
 
+// ------------------------------------------------------------------ C09: solo completion
+
+/// thread 1: has used the crate (prologue), now exits: its node goes to cooldown
+#[no_mangle]
+pub extern "C" fn cs_exit_t1() {
+    thread_exit_self(1);
+}
+/// a thread that never used the crate before writes (claims or allocates a node first)
+#[no_mangle]
+pub extern "C" fn cs_w_cold_store() {
+    a().store(pool(2).clone());
+}
+/// a warmed-up writer
+#[no_mangle]
+pub extern "C" fn cs_w_store_pool1() {
+    a().store(pool(1).clone());
+}
+#[no_mangle]
+pub extern "C" fn cs_w_swap_pool3() {
+    let old = a().swap(pool(3).clone());
+    drop(old);
+}
+
 // ------------------------------------------------------------------ C07: publication / data races
 
 /// like cs_setup2 but destruction scribbles over the payload (a plain write)
